@@ -16,6 +16,8 @@ CLAIMED["C04"] = ("4/C04", "One symbolic step of the real Gateway.listen / incom
 CLAIMED["C06"] = ("4/C06", "One symbolic step of the real receive path from every built pre-state (registry shape, reboot/sleeping flags, metric flag, stored value present/absent, version known or unknown) for every command and the listed internal types is compared with the write list of a reference model written from the statement (id response, M/I, local time via an independent days-from-civil formula over a symbolic clock stub, stored value, discover broadcast, reboot, version query rule), including that nothing is parked in either buffer. Path tree exhausted; bounded model checking.")
 CLAIMED["C10"] = ("4/C10", "Inductive step from symbolic pre-states (node unknown / known / known with child; outstanding-request markers for two nodes symbolic) with one event of 11 kinds and a symbolic write-fault bit, plus 2-3 event episode histories; writes, outcome, registry and the set of outstanding requests are compared with a model written from the statement for all five versions. Path tree exhausted; bounded model checking.")
 CLAIMED["C11"] = ("4/C11", "The real id-request handler is run on registries of 0..3(4) nodes whose ids are symbolic in [0,255] (so every subset shape of that size is covered by the solver) with symbolic request addressing; z3 decides freshness, range, registration-before-write, response addressing, the too-many-nodes clause, and distinctness over two requests. Path tree exhausted; bounded model checking.")
+CLAIMED["C05"] = ("4/C05", "(a1) the real get_protocol body is executed with symbolic major/minor in [0,10^6] (version parser replaced by a contract stub that is itself checked against the real AwesomeVersion on the grid) and z3 decides that the selected protocol is the newest one <= major.minor; (a2) the real parser end to end on a realised grid of 750 version texts (enumeration, stated as such); (b) histories of accepted and rejected version reports: reported version, active protocol, schema context and the type gate actually in force agree after every step; (c) internal/stream type gate per version with the type symbolic in [-2,99999] against table sizes hard-coded from the MySensors serial API. Path trees exhausted; bounded model checking.")
+CLAIMED["C03"] = ("4/C03", "The real Gateway.listen, all incoming handlers of the five protocol modules and StreamTransport.read are executed on (i) malformed lines (field counts, class texts, out-of-range integers), (ii) well-formed lines with symbolic ids, symbolic type numbers in [-2,99999] and a payload class list through the real float()/int()/version parser, from states with version known/unknown, node/child known/unknown, sleeping or not, and (iv) symbolic byte strings; on every path the outcome must be a message or a subclass of AIOMySensorsError, and after an error the same gateway must handle the next well-formed line. Path trees exhausted (the thorough raw-line hunt is non-deciding and reported as such); bounded model checking.")
 PENDING = {
 }
 
